@@ -552,13 +552,17 @@ where
     T: Sample<Type = T> + Copy + std::fmt::Debug + Type,
 {
     fn work(&mut self) -> Result<BlockRet> {
+        if self.repeat.done() {
+            // Includes a repeat count of zero: not even once.
+            return Ok(BlockRet::EOF);
+        }
         if self.left == 0 {
-            if self.repeat.again() {
-                self.file.seek(std::io::SeekFrom::Start(self.range.0))?;
-                self.left = self.range.1;
-            } else {
+            // An empty data file has nothing to repeat.
+            if self.range.1 == 0 || !self.repeat.again() {
                 return Ok(BlockRet::EOF);
             }
+            self.file.seek(std::io::SeekFrom::Start(self.range.0))?;
+            self.left = self.range.1;
         }
         let mut o = self.dst.write_buf()?;
         if o.is_empty() {
